@@ -73,25 +73,23 @@ theorem run_sound (L : Laws F) (last : Bool) :
         split at hstop
         · cases hstop; simp [evs, resEv]
         · cases hstop
-      | alt n =>
+      | altAny =>
         simp only [stopHere] at hstop
-        split at hstop
-        · cases halt : F.alt s (b :: tl) with
-          | none => simp [halt] at hstop
-          | some p =>
-            obtain ⟨m, r'⟩ := p
-            obtain ⟨hm, e, he, hsound⟩ := L.alt_sound s (b :: tl) m r' hp halt
-            simp only [halt, he] at hstop
-            cases hstop
-            simp only [evs, resEv, List.append_assoc, List.cons_append, List.nil_append]
-            exact hsound rest pos
-        · cases hstop
+        cases halt : F.alt s (b :: tl) with
+        | none => simp [halt] at hstop
+        | some p =>
+          obtain ⟨m, r'⟩ := p
+          obtain ⟨hm, e, he, hsound⟩ := L.alt_sound s (b :: tl) m r' hp halt
+          simp only [halt, he] at hstop
+          cases hstop
+          simp only [evs, resEv, List.append_assoc, List.cons_append, List.nil_append]
+          exact hsound rest pos
     | none =>
       simp only
       cases hE : (F.feed s b).err with
       | none =>
         have hu := L.noerr_unread s b hE
-        have hp' := L.pend_err s b hE
+        have hp' := L.pend_err s b hp hE
         have IH := ih (F.feed s b).st budget.dec (pos+1) rest hp' hl
         simp only [evs, List.map_append, List.append_assoc, List.drop_succ_cons, List.cons_append] at IH ⊢
         rw [ref_cons F s b (tl ++ rest) pos hp]
@@ -110,10 +108,9 @@ theorem run_sound (L : Laws F) (last : Bool) :
           rw [ref_cons F s b (tl ++ rest) pos hp]
           simp [hU, hE, errEv, List.append_assoc]
 
-theorem ref_flush (s : F.σ) (o : List Nat) (s' : F.σ) (stream : List Nat) (pos : Nat)
-    (L : Laws F) (h : F.pend s = some (o, s')) :
+theorem ref_flush' (s : F.σ) (o : List Nat) (s' : F.σ) (stream : List Nat) (pos : Nat)
+    (hp' : F.pend s' = none) (h : F.pend s = some (o, s')) :
     ref F s stream pos = o.map Ev.cp ++ ref F s' stream pos := by
-  have hp' := L.pend_once s o s' h
   obtain ⟨hf1, hf2⟩ := flush_none F hp'
   have e1 : flushSt F s = s' := by simp [flushSt, h]
   have e2 : flushEv F s = o.map Ev.cp := by simp [flushEv, h]
@@ -128,6 +125,11 @@ theorem ref_flush (s : F.σ) (o : List Nat) (s' : F.σ) (stream : List Nat) (pos
     rw [ref, ref_cons F s' b rest pos hp']
     simp only [e1, e2]
     split <;> simp_all [List.append_assoc]
+
+theorem ref_flush (s : F.σ) (o : List Nat) (s' : F.σ) (stream : List Nat) (pos : Nat)
+    (L : Laws F) (h : F.pend s = some (o, s')) :
+    ref F s stream pos = o.map Ev.cp ++ ref F s' stream pos :=
+  ref_flush' F s o s' stream pos (L.pend_once s o s' h) h
 
 /-- **G1 `call_sound`**: whatever the stop policy, the events of a call followed by
 the reference semantics of the rest of the stream are the reference semantics
@@ -174,19 +176,17 @@ theorem run_read_le (last : Bool) : ∀ (src : List Nat) (s : F.σ) (budget : Bu
         split at hstop
         · cases hstop; simp
         · cases hstop
-      | alt n =>
+      | altAny =>
         simp only [stopHere] at hstop
-        split at hstop
-        · cases ha : F.alt s (b :: tl) with
-          | none => simp [ha] at hstop
-          | some p =>
-            obtain ⟨m, r'⟩ := p
-            have := halt s (b :: tl) m r' ha
-            simp only [ha] at hstop
-            split at hstop
-            · cases hstop; exact this
-            · cases hstop
-        · cases hstop
+        cases ha : F.alt s (b :: tl) with
+        | none => simp [ha] at hstop
+        | some p =>
+          obtain ⟨m, r'⟩ := p
+          have := halt s (b :: tl) m r' ha
+          simp only [ha] at hstop
+          split at hstop
+          · cases hstop; exact this
+          · cases hstop
     | none =>
       simp only
       cases hE : (F.feed s b).err with
@@ -216,18 +216,16 @@ theorem run_inputEmpty (last : Bool) : ∀ (src : List Nat) (s : F.σ) (budget :
         split at hstop
         · cases hstop; simp
         · cases hstop
-      | alt n =>
+      | altAny =>
         simp only [stopHere] at hstop
-        split at hstop
-        · cases ha : F.alt s (b :: tl) with
-          | none => simp [ha] at hstop
-          | some p =>
-            obtain ⟨m, r'⟩ := p
-            simp only [ha] at hstop
-            split at hstop
-            · cases hstop; simp
-            · cases hstop
-        · cases hstop
+        cases ha : F.alt s (b :: tl) with
+        | none => simp [ha] at hstop
+        | some p =>
+          obtain ⟨m, r'⟩ := p
+          simp only [ha] at hstop
+          split at hstop
+          · cases hstop; simp
+          · cases hstop
     | none =>
       simp only
       cases hE : (F.feed s b).err with
@@ -236,5 +234,99 @@ theorem run_inputEmpty (last : Bool) : ∀ (src : List Nat) (s : F.σ) (budget :
         have := ih (F.feed s b).st budget.dec h
         simp only [List.length_cons]; omega
       | some e => simp
+
+end EncodingRs.Lemmas.Core
+
+namespace EncodingRs.Lemmas.Core
+open EncodingRs.Model
+variable (F : Fam) (k : Sink)
+
+/-- after a `last` call that returned `InputEmpty` nothing is left to report -/
+theorem run_final (L : Laws F) : ∀ (src : List Nat) (s : F.σ) (budget : Budget),
+    F.pend s = none → (run F k true s src budget).res = .inputEmpty →
+    F.eof (run F k true s src budget).st = none ∧ F.pend (run F k true s src budget).st = none := by
+  intro src
+  induction src with
+  | nil =>
+    intro s budget hp h
+    simp only [run, if_true] at h ⊢
+    cases he : F.eof s with
+    | none => simp [he, hp]
+    | some p =>
+      obtain ⟨e, s'⟩ := p
+      simp only [he] at h
+      split at h <;> cases h
+  | cons b tl ih =>
+    intro s budget hp h
+    rw [run] at h ⊢
+    cases hstop : stopHere F k s b tl budget with
+    | some r =>
+      simp only [hstop] at h
+      cases budget with
+      | unlimited => simp [stopHere] at hstop
+      | full n =>
+        simp only [stopHere] at hstop
+        split at hstop
+        · cases hstop; cases h
+        · cases hstop
+      | altAny =>
+        simp only [stopHere] at hstop
+        cases ha : F.alt s (b :: tl) with
+        | none => simp [ha] at hstop
+        | some p =>
+          obtain ⟨m, r'⟩ := p
+          simp only [ha] at hstop
+          split at hstop
+          · cases hstop; cases h
+          · cases hstop
+    | none =>
+      simp only [hstop] at h ⊢
+      cases hE : (F.feed s b).err with
+      | none =>
+        simp only [hE] at h ⊢
+        exact ih (F.feed s b).st budget.dec (L.pend_err s b hp hE) h
+      | some e => simp only [hE] at h; cases h
+
+theorem call_final (L : Laws F) (src : List Nat) (s : F.σ) (budget : Budget)
+    (h : (call F k s src true budget).res = .inputEmpty) :
+    ref F (call F k s src true budget).st [] ((call F k s src true budget).read) = [] := by
+  have key : F.eof (call F k s src true budget).st = none ∧ F.pend (call F k s src true budget).st = none := by
+    unfold call at h ⊢
+    cases hp : F.pend s with
+    | none => simp only [hp] at h ⊢; exact run_final F k L src s budget hp h
+    | some p =>
+      obtain ⟨o, s'⟩ := p
+      simp only [hp] at h ⊢
+      by_cases hz : budget.isZero = true
+      · simp [hz] at h
+      · simp only [hz, Bool.false_eq_true, if_false] at h ⊢
+        exact run_final F k L src s' budget.dec (L.pend_once s o s' hp) h
+  rw [ref_nil F _ _ key.2, key.1]
+
+theorem call_read_le (src : List Nat) (s : F.σ) (last : Bool) (budget : Budget)
+    (halt : ∀ s src m r, F.alt s src = some (m, r) → m ≤ src.length) :
+    (call F k s src last budget).read ≤ src.length := by
+  unfold call
+  cases F.pend s with
+  | none => exact run_read_le F k last src s budget halt
+  | some p =>
+    obtain ⟨o, s'⟩ := p
+    simp only
+    split
+    · simp
+    · exact run_read_le F k last src s' budget.dec halt
+
+theorem call_inputEmpty (src : List Nat) (s : F.σ) (last : Bool) (budget : Budget)
+    (h : (call F k s src last budget).res = .inputEmpty) :
+    (call F k s src last budget).read = src.length := by
+  unfold call at h ⊢
+  cases hp : F.pend s with
+  | none => simp only [hp] at h ⊢; exact run_inputEmpty F k last src s budget h
+  | some p =>
+    obtain ⟨o, s'⟩ := p
+    simp only [hp] at h ⊢
+    split at h
+    · cases h
+    · rename_i hz; simp only [hz]; exact run_inputEmpty F k last src s' budget.dec h
 
 end EncodingRs.Lemmas.Core
